@@ -695,12 +695,37 @@ func C05(tier string) int {
 		res.Traces += n
 		mu.Unlock()
 	})
+	// ---- part 4: the scheme the outbox is served under vs the scheme of the minted ids ----
+	// (independent: plain http behind a proxy minting https ids, and the reverse); the Location must be
+	// the id that was stored and put into the outbox, whatever the endpoint's scheme
+	nMix := 0
+	for _, body := range []M{Doc("Note", "", "content", "c", "to", Carol), Doc("Create", "", "actor", Alice, "to", Carol, "object", Emb("Note", "", "content", "c")),
+		Doc("Like", "", "actor", Alice, "object", RNote, "to", Carol), Doc("Follow", "", "actor", Alice, "object", Carol, "to", Carol)} {
+		for _, kind := range []ap.ActorKind{ap.Both, ap.SocialOnly} {
+			for _, mix := range []struct{ endpoint, ids string }{{"http", "https"}, {"https", "http"}, {"http", "http"}} {
+				mix := mix
+				sc := &Scenario{Name: fmt.Sprintf("c05/%v endpoint-scheme=%s minted-ids=%s %s", body["type"], mix.endpoint, mix.ids, kind), Kind: kind, Entry: "PostOutbox",
+					URL: outbox(Alice), Body: body, Scheme: mix.endpoint, Tweak: func(a *ap.App) { a.IDScheme = mix.ids }}
+				out := sc.Exec(mc.NewExec(nil), false)
+				nMix++
+				res.Case(sc.Name)
+				if out.Panic != nil || out.Err != nil || len(out.W.Statuses) != 1 || out.W.Statuses[0] != 201 {
+					res.Violate("scheme|post-not-accepted", fmt.Sprintf("%s: err=%v statuses=%v", sc.Name, out.Err, out.W.Statuses), M{"check": "C05", "part": "scheme", "scenario": sc.Name})
+					continue
+				}
+				if msg := locationOK(out, out.App.RewriteLocal(outbox(Alice))); msg != "" {
+					res.Violate("scheme|location-is-not-the-stored-id", sc.Name+": "+msg, M{"check": "C05", "part": "scheme", "scenario": sc.Name})
+				}
+			}
+		}
+	}
+	res.Evaluations += nMix
 	res.Extra["inputs"] = len(ins)
 	res.Extra["history_depth_completed"] = depth
 	res.Extra["history_alphabet"] = len(posts)
 	res.Extra["fault_bound_completed"] = bound
 	res.Extra["fault_scenarios"] = len(faultIns)
-	res.Rule = fmt.Sprintf("(1) inputs: Create with one object and every assignment of {absent,{x},{y,z}} to the five addressing properties of activity and object (3^10, quick: a quarter plus all bto/bcc cross pairs) with 4 attribution variants, bare Note/Article over 3^5 assignments x published x 4 entry/actor combinations, Creates with 2 (thorough 3) objects over to/bto/bcc, 9 other activity types: %d posts, judged with set semantics on the stored activity and stored objects; (2) histories: explicit-state search, every sequence of up to %d posts over a %d-post alphabet (two outboxes, Send, a rejected post), each transition is a real request on a cloned application state, invariant in every state: each outbox lists exactly the returned ids, newest first, once, all stored; (3) fault sequences: %d posts (each with and without application callbacks wrapped around the default effect) x every choice of <= %d failing seam calls: nothing is handed to the transport after a failed persistence step and success is not reported; states = distinct application states of (2), transitions = requests applied", len(ins), depth, len(posts), len(faultIns), bound)
+	res.Rule = fmt.Sprintf("(1) inputs: Create with one object and every assignment of {absent,{x},{y,z}} to the five addressing properties of activity and object (3^10, quick: a quarter plus all bto/bcc cross pairs) with 4 attribution variants, bare Note/Article over 3^5 assignments x published x 4 entry/actor combinations, Creates with 2 (thorough 3) objects over to/bto/bcc, 9 other activity types: %d posts, judged with set semantics on the stored activity and stored objects; (2) histories: explicit-state search, every sequence of up to %d posts over a %d-post alphabet (two outboxes, Send, a rejected post), each transition is a real request on a cloned application state, invariant in every state: each outbox lists exactly the returned ids, newest first, once, all stored; (3) fault sequences: %d posts (each with and without application callbacks wrapped around the default effect) x every choice of <= %d failing seam calls: nothing is handed to the transport after a failed persistence step and success is not reported; (4) 4 posts x 2 actor kinds with the endpoint scheme and the scheme of the minted ids chosen independently: the Location is the stored id at the front of the outbox; states = distinct application states of (2), transitions = requests applied", len(ins), depth, len(posts), len(faultIns), bound)
 	res.Assumptions = []string{"order and duplicates inside addressing lists are not asserted (set semantics)", "objects are not required to gain each other's recipients", "application state is cloned between history steps (the model is ours, so it can be)"}
 	return res.Finish()
 }
